@@ -634,3 +634,25 @@ package iscp
 //@   after call Downstream).resume: waited = false
 //@   assert call Downstream).run: arg0 == down
 //@   loop 1 invariant !waited
+
+// ---------------------------------------------------------------- C04: acknowledgement flush
+// flushAck sends nothing (and consumes no ack id) when nothing is buffered; otherwise it sends
+// exactly one ack - numbered previous id + 1, for this stream's alias, carrying exactly the
+// buffered results and alias announcements - and leaves all three buffers empty, so nothing is
+// acknowledged twice and nothing buffered is forgotten.
+//@ func (*Downstream).flushAck
+//@   props C04
+//@   requires d.chunkAckIDSequence != nil && d.wireConn != nil
+//@   ghostvar sent int = 0
+//@   assert call SendDownstreamDataPointsAck: sent == 0 && arg2 != nil && arg2.StreamIDAlias == d.idAlias && arg2.AckID == (old(d.chunkAckIDSequence.Current) + 1) % 4294967296
+//@   assert call SendDownstreamDataPointsAck: arg2.Results == old(d.resultAckBuffer) && arg2.DataIDAliases == old(d.dataIDAckBuffer) && arg2.UpstreamAliases == old(d.upstreamInfoAckBuffer)
+//@   assert call SendDownstreamDataPointsAck: len(d.resultAckBuffer) == 0 && len(d.dataIDAckBuffer) == 0 && len(d.upstreamInfoAckBuffer) == 0 && d.dataIDAckBuffer != old(d.dataIDAckBuffer) && d.upstreamInfoAckBuffer != old(d.upstreamInfoAckBuffer)
+//@   after call SendDownstreamDataPointsAck: sent = sent + 1
+//@   ensures imp(old(len(d.dataIDAckBuffer)) == 0 && old(len(d.resultAckBuffer)) == 0 && old(len(d.upstreamInfoAckBuffer)) == 0, sent == 0 && result == nil && d.chunkAckIDSequence.Current == old(d.chunkAckIDSequence.Current))
+//@   ensures imp(old(len(d.dataIDAckBuffer)) != 0 || old(len(d.resultAckBuffer)) != 0 || old(len(d.upstreamInfoAckBuffer)) != 0, sent == 1)
+
+// the three push helpers add exactly what they are given, under the lock
+//@ func (*Downstream).pushResultAckBuffer
+//@   props C04
+//@   ensures len(d.resultAckBuffer) == old(len(d.resultAckBuffer)) + 1 && d.resultAckBuffer[old(len(d.resultAckBuffer))] == res
+//@   ensures forall(i, int, imp(0 <= i && i < old(len(d.resultAckBuffer)), d.resultAckBuffer[i] == old(d.resultAckBuffer[i])))
